@@ -103,6 +103,9 @@ func genericParser(bin []string, prefix []string, comments, comfort bool, alias 
 
 var configs []config
 
+// evalOff: generate without optimizer and evaluate once (finding F33, see check).
+var evalOff func(text string) error
+
 func init() {
 	vOn := value.New()
 	vOnC := value.New()
@@ -113,6 +116,14 @@ func init() {
 	fC := newFloatGen(true)
 	fN := newFloatGen(false)
 	bG := newBoolGen()
+	evalOff = func(s string) error {
+		f, _, err := vOff.Generate(s, "x", "y")
+		if err != nil {
+			return err
+		}
+		_, err = f.Eval(value.Int(0), value.Int(0))
+		return err
+	}
 	gen := func(g *value.FunctionGenerator) func(string) error {
 		return func(s string) error { _, _, err := g.Generate(s, "x", "y"); return err }
 	}
@@ -177,6 +188,20 @@ func check(c Case) (string, verdict) {
 	v := runOne(cfg, text, 5*time.Second)
 	if v.panic != "" {
 		return fmt.Sprintf("%s panics on %d bytes %s: %s", cfg.name, len(text), c.Shown, v.panic), v
+	}
+	if v.hang && c.Config%len(configs) <= 3 && c.Config%len(configs) != 2 {
+		// Finding F33: the optimizer evaluates argument independent sub-expressions while
+		// Generate runs, without any budget - a program whose own evaluation takes long
+		// ("numbers(1266666666).map(..).string()") takes that long to generate. Attributed
+		// only if the same input is parsed at once without the optimizer AND the evaluation
+		// of the unoptimized function is what takes the time.
+		if p := runOne(configs[2], text, 5*time.Second); !p.hang && p.panic == "" && p.accepted {
+			if e := runOne(config{"evaluation of the unoptimized function", evalOff}, text, 3*time.Second); e.hang {
+				evid.R.Known("F33")
+				evid.R.Class("slow_because_a_constant_is_evaluated_while_generating")
+				return "", v
+			}
+		}
 	}
 	if v.hang {
 		t1 := runOne(cfg, text, 60*time.Second)
@@ -343,6 +368,35 @@ func TestReplay(t *testing.T) {
 		} else {
 			evid.ReplayPassed(path)
 		}
+	}
+}
+
+// TestKnownF33 confirms the open finding F33 with a bounded experiment: the time
+// Generate needs for "numbers(N).map(i->i).sum()" grows with N although the input has the
+// same length (the optimizer evaluates the constant expression while generating). If
+// Generate gets a budget for that, the times become flat and the line is not printed.
+func TestKnownF33(t *testing.T) {
+	defer evid.R.Flush()
+	g := value.New()
+	measure := func(n int) float64 {
+		best := 1e9
+		for r := 0; r < 3; r++ {
+			start := time.Now()
+			if _, _, err := g.Generate(fmt.Sprintf("numbers(%d).map(i->i).sum()", n)); err != nil {
+				t.Fatalf("Generate: %v", err)
+			}
+			if d := time.Since(start).Seconds(); d < best {
+				best = d
+			}
+		}
+		return best
+	}
+	t1, t4 := measure(1000000), measure(4000000)
+	evid.R.Case(true, "F33-exemplar-1e6", nil, "known_finding_exemplar")
+	evid.R.Case(true, "F33-exemplar-4e6", nil, "known_finding_exemplar")
+	fmt.Printf("Generate(numbers(N).map(i->i).sum()): N=1e6 %.3fs, N=4e6 %.3fs\n", t1, t4)
+	if t4 > 0.02 && t4 > 2.5*t1 {
+		evid.R.Known("F33")
 	}
 }
 
